@@ -1,1 +1,463 @@
-(* Front/Tags.v -- stub, to be filled *)
+(* Front/Tags.v -- tags and SET ordering (property C16).
+
+   Models, function for function, the path a SEQUENCE/SET definition takes through asn1rs:
+
+     asn/tag.rs            Tag (derived Ord), Tag::DEFAULT_*
+     asn/components.rs     ComponentTypeList::try_from       (position of `...` -> extension_after)
+     asn/tag_resolver.rs   TagResolver::{resolve_tag, resolve_type_tag, resolve_no_default}
+     rust.rs               asn_fields_to_rust_fields, definition_type_to_rust_type, RustType::tag,
+                           RustType::{no_option, is_optional}
+     generate/rust.rs      add_definition (the `extensible_after(<name of fields[index]>)` attribute),
+                           asn_attribute_type (`complex(Name[, tag(..)])`)
+     proc_macro/attribute.rs  `complex(Name, tag(..))` -- the tag is mandatory when the attribute is read back
+     proc_macro/mod.rs     into_asn, expand
+     generate/walker.rs    write_constraints, assign_implicit_tags, write_field_constraint (the TAG constant),
+                           sort_fields_canonically, write_sequence_or_set_constraint (own TAG, read_seq/write_seq
+                           order), write_sequence_constraint_insert_consts (STD_OPTIONAL_FIELDS, EXTENDED_AFTER_FIELD)
+
+   Names are not modelled: a component is identified by its textual index, a referenced definition by its
+   index in the module (or `RUndef` for a name the module does not define).  The module header's tag default
+   (`AUTOMATIC TAGS` ...) is skipped by the parser (Model::try_from: skip_until_after_text_ignore_ascii_case
+   "BEGIN") and therefore is not an input of any function below. *)
+From A1 Require Export Base.Res.
+From A1 Require Import Gen.TagConsts.
+Local Open Scope N_scope.
+
+(* ------------------------------------------------------------------------- *)
+(** * asn/tag.rs *)
+
+Inductive tclass := Universal | Application | ContextSpecific | Private.
+Definition tag : Type := tclass * N.
+
+(* the class codes used by gen/consts.py *)
+Definition class_code (c : tclass) : N :=
+  match c with Universal => 0 | Application => 1 | ContextSpecific => 2 | Private => 3 end.
+Definition class_of_code (n : N) : tclass :=
+  match n with 0 => Universal | 1 => Application | 2 => ContextSpecific | _ => Private end.
+Definition tag_of_code (p : N * N) : tag := (class_of_code (fst p), snd p).
+
+(* #[derive(PartialOrd, Ord)] on `enum Tag`: variants compare by their position in the declaration,
+   equal variants by their payload.  The declaration order comes from the generated file. *)
+Fixpoint index_of (x : N) (l : list N) : nat :=
+  match l with
+  | [] => O
+  | y :: l' => if x =? y then O else S (index_of x l')
+  end.
+Definition class_rank (c : tclass) : nat := index_of (class_code c) TAG_VARIANT_ORDER.
+Definition tag_cmp (a b : tag) : comparison :=
+  match Nat.compare (class_rank (fst a)) (class_rank (fst b)) with
+  | Eq => N.compare (snd a) (snd b)
+  | c => c
+  end.
+(* derived Ord of Option<T>: None < Some *)
+Definition otag_cmp (a b : option tag) : comparison :=
+  match a, b with
+  | None, None => Eq
+  | None, Some _ => Lt
+  | Some _, None => Gt
+  | Some x, Some y => tag_cmp x y
+  end.
+(* Ord of bool: false < true *)
+Definition bool_cmp (a b : bool) : comparison :=
+  match a, b with
+  | false, true => Lt
+  | true, false => Gt
+  | _, _ => Eq
+  end.
+(* Ord of the tuple (bool, &Option<Tag>) used as sort key: lexicographic *)
+Definition key : Type := bool * option tag.
+Definition key_cmp (a b : key) : comparison :=
+  match bool_cmp (fst a) (fst b) with
+  | Eq => otag_cmp (snd a) (snd b)
+  | c => c
+  end.
+
+Definition not_gt (c : comparison) : bool := match c with Gt => false | _ => true end.
+Definition tag_le (a b : tag) : bool := not_gt (tag_cmp a b).
+Definition key_le (a b : key) : bool := not_gt (key_cmp a b).
+
+(* slice::sort / slice::sort_by are stable; modelled as insertion sort (an element is placed in front of the
+   first element of the already sorted tail that is not smaller, i.e. in front of its equals that follow it
+   in the input). *)
+Section StableSort.
+  Context {A : Type} (cmp : A -> A -> comparison).
+  Fixpoint insert (x : A) (l : list A) : list A :=
+    match l with
+    | [] => [x]
+    | y :: l' => match cmp x y with Gt => y :: insert x l' | _ => x :: l end
+    end.
+  Fixpoint sort_by (l : list A) : list A :=
+    match l with
+    | [] => []
+    | x :: l' => insert x (sort_by l')
+    end.
+End StableSort.
+
+(* ------------------------------------------------------------------------- *)
+(** * types as far as tags are concerned *)
+
+(* built-in types that stay a plain RustType (Bool, integers, String(charset), VecU8, BitVec, Null, Vec) *)
+Inductive bkind := KBool | KInt | KOctets | KUtf8 | KNull | KBits | KIa5 | KNumeric | KPrintable | KVisible
+                 | KSeqOf | KSetOf.
+(* constructed types written inline: they are moved into a definition of their own and referenced
+   through RustType::Complex *)
+Inductive ckind := KEnum | KSeq | KSet.
+
+Definition builtin_tag (k : bkind) : tag :=
+  tag_of_code match k with
+  | KBool => DEFAULT_BOOLEAN | KInt => DEFAULT_INTEGER | KOctets => DEFAULT_OCTET_STRING
+  | KUtf8 => DEFAULT_UTF8_STRING | KNull => DEFAULT_NULL | KBits => DEFAULT_BIT_STRING
+  | KIa5 => DEFAULT_IA5_STRING | KNumeric => DEFAULT_NUMERIC_STRING
+  | KPrintable => DEFAULT_PRINTABLE_STRING | KVisible => DEFAULT_VISIBLE_STRING
+  | KSeqOf => DEFAULT_SEQUENCE_OF | KSetOf => DEFAULT_SET_OF
+  end.
+Definition constr_tag (k : ckind) : tag :=
+  tag_of_code match k with KEnum => DEFAULT_ENUMERATED | KSeq => DEFAULT_SEQUENCE | KSet => DEFAULT_SET end.
+
+Inductive refname := RUndef | RIdx (j : nat).
+
+(* asn::Type as produced by the parser (TypeReference always carries `None`: read_role_given_text) *)
+Inductive aty :=
+| TBuiltin (k : bkind)
+| TConstr (k : ckind)
+| TRef (r : refname)
+| TChoice (ext_after : option nat) (alts : list (option tag * aty)).
+
+(* a definition of the module: `Name ::= [tag] type` *)
+Record def := { d_tag : option tag; d_ty : aty }.
+Definition env := list def.
+
+(* ------------------------------------------------------------------------- *)
+(** * asn/tag_resolver.rs *)
+
+Definition or_else {A} (a : option A) (b : option A) : option A :=
+  match a with Some _ => a | None => b end.
+
+(* `.map(f).collect::<Option<Vec<_>>>()` -- stops at the first None *)
+Fixpoint collect_opt {A B} (f : A -> res (option B)) (l : list A) : res (option (list B)) :=
+  match l with
+  | [] => Ok (Some [])
+  | x :: l' =>
+      let! o := f x in
+      match o with
+      | None => Ok None
+      | Some b => let! r := collect_opt f l' in Ok (option_map (cons b) r)
+      end
+  end.
+
+(* resolve_type_tag and resolve_tag (no imports: scope = []) in one fuelled function.  Both recurse through
+   type references without any cycle check; running out of fuel stands for that unbounded recursion. *)
+Fixpoint resolve_type_tag (fuel : nat) (e : env) (ty : aty) : res (option tag) :=
+  match fuel with
+  | O => Panic P_UNBOUNDED
+  | S f =>
+      match ty with
+      | TBuiltin k => Ok (Some (builtin_tag k))
+      | TConstr k => Ok (Some (constr_tag k))
+      | TRef r =>
+          (* Type::TypeReference(inner, None): None.or_else(|| self.resolve_tag(inner)) *)
+          match r with
+          | RUndef => Ok None
+          | RIdx j =>
+              match nth_error e j with
+              | None => Ok None
+              | Some d =>
+                  match d_tag d with
+                  | Some t => Ok (Some t)
+                  | None => resolve_type_tag f e (d_ty d)
+                  end
+              end
+          end
+      | TChoice ext alts =>
+          let root := firstn (match ext with Some x => x + 1 | None => length alts end)%nat alts in
+          let! tags := collect_opt (fun a : option tag * aty =>
+                                      match fst a with
+                                      | Some t => Ok (Some t)
+                                      | None => resolve_type_tag f e (snd a)
+                                      end) root in
+          match tags with
+          | None => Ok None
+          | Some ts => Ok (hd_error (sort_by tag_cmp ts))
+          end
+      end
+  end.
+
+Definition resolve_tag (fuel : nat) (e : env) (r : refname) : res (option tag) :=
+  resolve_type_tag fuel e (TRef r).
+
+(* enough for every module whose references point to later definitions only *)
+Definition fuel_for (e : env) : nat := (2 * length e + 4)%nat.
+
+(* resolve_default: the resolver over an empty module *)
+Definition resolve_default (fuel : nat) (ty : aty) : res (option tag) := resolve_type_tag fuel [] ty.
+(* resolve_no_default: resolved.filter(|r| default != Some(r)) *)
+Definition otag_eqb (a b : option tag) : bool := match otag_cmp a b with Eq => true | _ => false end.
+Definition resolve_no_default (fuel : nat) (e : env) (ty : aty) : res (option tag) :=
+  let! d := resolve_default fuel ty in
+  let! r := resolve_type_tag fuel e ty in
+  Ok (match r with Some _ => if otag_eqb d r then None else r | None => None end).
+
+(* ------------------------------------------------------------------------- *)
+(** * rust.rs *)
+
+Inductive rty :=
+| RBuiltin (k : bkind)
+| RComplex (t : option tag)
+| ROption (r : rty)
+| RDefault (r : rty).
+
+(* rust::Field: the name is the textual index of the component *)
+Record rfield := { rf_idx : nat; rf_ty : rty; rf_tag : option tag }.
+
+Definition is_optional (r : rty) : bool :=
+  match r with ROption _ | RDefault _ => true | _ => false end.
+Fixpoint no_option (r : rty) : rty :=
+  match r with
+  | ROption i => i            (* only one layer *)
+  | RDefault i => no_option i
+  | x => x
+  end.
+
+(* RustType::tag *)
+Fixpoint rty_tag (r : rty) : option tag :=
+  match r with
+  | RBuiltin k => Some (builtin_tag k)
+  | RComplex t => t
+  | ROption i => rty_tag i
+  | RDefault i => rty_tag i
+  end.
+
+Inductive presence := Mandatory | Optional | Default.
+(* model::Field<Asn>: role.tag, role.type (OPTIONAL wraps it in Type::Optional), role.default *)
+Record comp := { c_tag : option tag; c_ty : aty; c_pres : presence }.
+
+(* definition_type_to_rust_type for a type that is not Optional/Default.  The `tag` argument only reaches
+   the inline constructed types. *)
+Definition type_to_rty (fuel : nat) (e : env) (ty : aty) (tg : option tag) : res rty :=
+  match ty with
+  | TBuiltin k => Ok (RBuiltin k)
+  | TConstr _ | TChoice _ _ =>
+      match tg with
+      | Some _ => Ok (RComplex tg)
+      | None => let! t := resolve_type_tag fuel e ty in Ok (RComplex t)
+      end
+  | TRef r => let! t := resolve_tag fuel e r in Ok (RComplex t)
+  end.
+
+(* asn_fields_to_rust_fields, one field *)
+Definition comp_to_rfield (fuel : nat) (e : env) (ext_after : option nat) (index : nat) (c : comp) : res rfield :=
+  let tg := c_tag c in
+  let! role :=
+    match c_pres c with
+    | Optional =>
+        (* Type::Optional(inner): tag.or_else(|| resolve_no_default(inner)) is evaluated eagerly *)
+        let! tg' := match tg with Some _ => Ok tg | None => resolve_no_default fuel e (c_ty c) end in
+        let! r := type_to_rty fuel e (c_ty c) tg' in Ok (ROption r)
+    | _ => type_to_rty fuel e (c_ty c) tg
+    end in
+  let role :=
+    match c_pres c with
+    | Default => RDefault (no_option role)
+    | _ =>
+        if match ext_after with Some x => Nat.ltb x index | None => false end && negb (is_optional role)
+        then ROption role else role
+    end in
+  Ok {| rf_idx := index; rf_ty := role; rf_tag := tg |}.
+
+Fixpoint comps_to_rfields (fuel : nat) (e : env) (ext_after : option nat) (index : nat) (cs : list comp)
+  : res (list rfield) :=
+  match cs with
+  | [] => Ok []
+  | c :: cs' =>
+      let! f := comp_to_rfield fuel e ext_after index c in
+      let! fs := comps_to_rfields fuel e ext_after (S index) cs' in
+      Ok (f :: fs)
+  end.
+
+(* ------------------------------------------------------------------------- *)
+(** * the generated file and its way back through the attribute macro *)
+
+(* generate/rust.rs add_definition: `extension_after.map(|index| fields[index].name().to_string())` *)
+Definition attr_extensible_after (fields : list rfield) (ext_after : option nat) : res (option nat) :=
+  match ext_after with
+  | None => Ok None
+  | Some x => match nth_error fields x with
+              | Some f => Ok (Some (rf_idx f))
+              | None => Panic P_INDEX_OOB
+              end
+  end.
+
+Fixpoint complex_untagged (r : rty) : bool :=
+  match r with
+  | RBuiltin _ => false
+  | RComplex t => match t with None => true | Some _ => false end
+  | ROption i => complex_untagged i
+  | RDefault i => complex_untagged i
+  end.
+
+Definition E_ATTRIBUTE : N := 6.
+
+(* asn_attribute_type prints `complex(Name)` when the reference has no tag; proc_macro/attribute.rs insists on
+   `complex(Name, tag(..))`: parse_asn_definition fails (a compile_error! in the user's build).  Otherwise
+   into_asn + convert_asn_to_rust over the one-definition module rebuild the same field
+   (TypeReference(name, Some t) -> Complex(name, Some t)).  find_extensible_index finds the field again by
+   name. *)
+Definition reparse (fields : list rfield) (ext_name : option nat) : res (list rfield * option nat) :=
+  if existsb (fun f => complex_untagged (rf_ty f)) fields then Err E_ATTRIBUTE
+  else
+    Ok (fields,
+        match ext_name with
+        | None => None
+        | Some nm =>
+            (fix find (i : nat) (l : list rfield) : option nat :=
+               match l with
+               | [] => None    (* unreachable: the name was taken from this list *)
+               | f :: l' => if Nat.eqb (rf_idx f) nm then Some i else find (S i) l'
+               end) O fields
+        end).
+
+(* ------------------------------------------------------------------------- *)
+(** * generate/walker.rs *)
+
+Fixpoint enumerate_from {A} (i : nat) (l : list A) : list (nat * A) :=
+  match l with
+  | [] => []
+  | x :: l' => (i, x) :: enumerate_from (S i) l'
+  end.
+Definition enumerate {A} (l : list A) := enumerate_from O l.
+
+Definition is_some {A} (o : option A) : bool := match o with Some _ => true | None => false end.
+
+Definition with_tag (f : rfield) (t : option tag) : rfield :=
+  {| rf_idx := rf_idx f; rf_ty := rf_ty f; rf_tag := t |}.
+
+(* assign_implicit_tags: context tags 0..n-1 exactly when no field carries a tag *)
+Definition assign_implicit_tags (fields : list rfield) : list rfield :=
+  if existsb (fun f => is_some (rf_tag f)) fields then fields
+  else map (fun p => with_tag (snd p) (Some (ContextSpecific, N.of_nat (fst p)))) (enumerate fields).
+
+(* write_field_constraint: the TAG constant of the field's own constraint type *)
+Fixpoint tag_const (ty : rty) (ftag : option tag) : res tag :=
+  match ty with
+  | RBuiltin k =>
+      Ok match ftag with
+         | Some t => t
+         | None => match k with
+                   | KSeqOf | KSetOf => tag_of_code DEFAULT_SEQUENCE_OF   (* one arm for RustType::Vec *)
+                   | _ => builtin_tag k
+                   end
+         end
+  | ROption i => tag_const i ftag
+  | RDefault _ => Ok match ftag with Some t => t | None => tag_of_code DEFAULT_SEQUENCE_OF end
+  | RComplex t =>
+      match or_else ftag t with
+      | Some t => Ok t
+      | None => Panic P_OTHER    (* panic!("Complex type {}::{} requires a tag for {}") *)
+      end
+  end.
+
+Fixpoint tag_consts (fields : list rfield) : res (list tag) :=
+  match fields with
+  | [] => Ok []
+  | f :: fs => let! t := tag_const (rf_ty f) (rf_tag f) in let! ts := tag_consts fs in Ok (t :: ts)
+  end.
+
+(* the tag sort_fields_canonically stores into the field *)
+Definition sort_tag (f : rfield) : option tag := or_else (rf_tag f) (rty_tag (rf_ty f)).
+
+Definition is_addition (ext_after : option nat) (index : nat) : bool :=
+  match ext_after with Some after => Nat.ltb after index | None => false end.
+
+Fixpoint sort_prepare (ext_after : option nat) (l : list (nat * rfield)) : res (list (bool * rfield)) :=
+  match l with
+  | [] => Ok []
+  | (index, f) :: l' =>
+      match sort_tag f with
+      | None => Panic P_OTHER   (* panic!("Field {} is missing a tag assignment") *)
+      | Some t =>
+          let! r := sort_prepare ext_after l' in
+          Ok ((is_addition ext_after index, with_tag f (Some t)) :: r)
+      end
+  end.
+
+Definition field_key (p : bool * rfield) : key := (fst p, rf_tag (snd p)).
+Definition field_cmp (a b : bool * rfield) : comparison := key_cmp (field_key a) (field_key b).
+
+Definition sort_fields_canonically (fields : list rfield) (ext_after : option nat) : res (list rfield) :=
+  let! l := sort_prepare ext_after (enumerate fields) in
+  Ok (map snd (sort_by field_cmp l)).
+
+Inductive ordering := Keep | Sort.
+
+(* write_sequence_constraint_insert_consts *)
+Fixpoint take_while_index_le (bound : option nat) (l : list (nat * rfield)) : list (nat * rfield) :=
+  match l with
+  | [] => []
+  | (i, f) :: l' =>
+      if match bound with Some b => Nat.leb i b | None => true end   (* unwrap_or(usize::MAX) *)
+      then (i, f) :: take_while_index_le bound l' else []
+  end.
+Definition std_optional_fields (wire : list rfield) (ext_after : option nat) : nat :=
+  length (filter (fun p => is_optional (rf_ty (snd p))) (take_while_index_le ext_after (enumerate wire))).
+Definition extended_after_field (ext_after : option nat) : option nat := ext_after.
+
+Record layout := {
+  l_wire : list rfield;      (* the order of read_seq and of write_seq *)
+  l_tags : list tag;         (* TAG constants of the field constraints, in wire order *)
+  l_std_optional : nat;
+  l_extended_after : option nat;
+  l_own : tag                (* TAG constant of the type itself *)
+}.
+
+Fixpoint lookup_tag (idxs : list nat) (tags : list tag) (i : nat) : option tag :=
+  match idxs, tags with
+  | j :: idxs', t :: tags' => if Nat.eqb i j then Some t else lookup_tag idxs' tags' i
+  | _, _ => None
+  end.
+
+(* write_constraints, arm Rust::Struct + write_sequence_or_set_constraint *)
+Definition write_constraints (o : ordering) (own : option tag) (fields : list rfield) (ext_after : option nat)
+  : res layout :=
+  let fields := assign_implicit_tags fields in
+  let! consts := tag_consts fields in                 (* write_field_constraints *)
+  let! wire := match o with
+               | Keep => Ok fields
+               | Sort => sort_fields_canonically fields ext_after
+               end in
+  let idxs := map rf_idx fields in
+  Ok {| l_wire := wire;
+        l_tags := map (fun f => match lookup_tag idxs consts (rf_idx f) with
+                                | Some t => t
+                                | None => (Universal, 0)   (* unreachable: wire is a rearrangement of fields *)
+                                end) wire;
+        l_std_optional := std_optional_fields wire ext_after;
+        l_extended_after := extended_after_field ext_after;
+        l_own := match own with Some t => t | None => tag_of_code DEFAULT_SEQUENCE end |}.
+
+(* ------------------------------------------------------------------------- *)
+(** * the whole path *)
+
+(* ComponentTypeList::try_from: a marker met after [p] components sets
+   extension_after = Some(p.saturating_sub(1)) *)
+Definition ext_after_of_marker (marker : option nat) : option nat :=
+  match marker with None => None | Some p => Some (Nat.pred p) end.
+
+Record sdef := {
+  s_set : bool;
+  s_marker : option nat;      (* number of components in front of `...` *)
+  s_auto : bool;              (* module header says AUTOMATIC TAGS -- not read by anything *)
+  s_own : option tag;
+  s_comps : list comp;
+  s_env : env
+}.
+
+Definition layout_of (d : sdef) : res layout :=
+  let fuel := fuel_for (s_env d) in
+  let ext := ext_after_of_marker (s_marker d) in
+  let! fields := comps_to_rfields fuel (s_env d) ext O (s_comps d) in   (* Model::to_rust *)
+  let! ext_name := attr_extensible_after fields ext in                  (* RustCodeGenerator *)
+  let! back := reparse fields ext_name in                               (* #[asn(..)] read back *)
+  write_constraints (if s_set d then Sort else Keep) (s_own d) (fst back) (snd back).
+
+Definition wire_order (d : sdef) : res (list nat) :=
+  let! l := layout_of d in Ok (map rf_idx (l_wire l)).
